@@ -311,10 +311,50 @@ def check_stats_load(P, R):
         R.check({"n_gaussians", "n_features"} <= assigned, "SCHEMA.S6-shape", f.key, "shape fields follow the loaded object", "", "loading into an object of a different shape keeps the old shape fields")
 
 
+
+def check_hidden_state(P, R, clsname, rule="STATE.hidden"):
+    """Everything a saved object carries from one call to the next is either set by the constructor, restored by the reader, or
+    a parameter with a setter.  An attribute that a method creates on the fly (`self._last = ...` in fit, read back through
+    `getattr(self, "_last", None)`) and that neither `__init__` nor the reader knows is state the file does not hold and `load()`
+    does not reset: the reloaded object - or an object loaded over - continues differently from the saved one."""
+    ci = P.cls(clsname)
+    init_attrs, reader_attrs, created = set(), set(), {}
+    for k_ in P.mro(ci):
+        for nm, m in list(k_.methods.items()) + [(pn + "." + kind, fn) for pn, pr in k_.props.items() for kind, fn in pr.items()]:
+            if not m.self_name:
+                continue
+            for st, t, v, k in stores(m):
+                b = t
+                while isinstance(b, ast.Subscript):
+                    b = b.value
+                if isinstance(b, ast.Attribute) and isinstance(b.value, ast.Name) and b.value.id == m.self_name:
+                    if nm == "__init__" or ".set" in nm:
+                        init_attrs.add(b.attr)
+                    else:
+                        created.setdefault(b.attr, (m, st))
+            for c in walk_no_nested(m.node):
+                if isinstance(c, ast.Call) and isinstance(c.func, ast.Name) and c.func.id == "setattr" and len(c.args) >= 2 and isinstance(c.args[0], ast.Name) and c.args[0].id == m.self_name and isinstance(c.args[1], ast.Constant):
+                    if nm == "__init__" or ".set" in nm:
+                        init_attrs.add(c.args[1].value)
+                    else:
+                        created.setdefault(c.args[1].value, (m, c))
+        for pn in k_.props:
+            init_attrs.add(pn)
+    n = 0
+    for a, (m, st) in sorted(created.items()):
+        if a in init_attrs or a.lstrip("_") in init_attrs or ("_" + a) in init_attrs:
+            continue
+        n += 1
+        R.violation(rule, m.key, f"self.{a} created in {m.key.split('.')[-1]}", f"`{a}` is created by `{m.key.split(':')[-1]}` and is neither initialised by the constructor nor a parameter with a setter: it is not written by save() and not reset by load() (`__dict__.update`), so it survives as hidden state - an object reloaded from its file, or a file loaded into a used object, behaves differently from the object that was saved", getattr(st, "lineno", None))
+    R.ok(rule, clsname, f"every attribute the methods of {clsname} store is initialised by the constructor or is a parameter with a setter ({len(created)} stored attributes, {n} created on the fly)", "")
+    return len(created)
+
 def run(P, R, tier):
     check_class(P, R, "GMMMachine")
     check_class(P, R, "GMMStats")
     check_stats_load(P, R)
+    n_hs = check_hidden_state(P, R, "GMMMachine") + check_hidden_state(P, R, "GMMStats")
+    R.floor("STATE.hidden stored attributes", n_hs, 5)
     cache.k6_load_replaces_state(P, R)
     cache.k1_who_may_write(P, R)  # the reader restores parameters through the setters (clamp, normaliser, log-weights follow)
     # GMMStats.init_fields stores each parameter into its own field
@@ -343,3 +383,4 @@ def run(P, R, tier):
 
 
 EXPLANATION += ' Also: (SCHEMA.S9) the per-component groups of the legacy format are addressed by index (the weights are index-ordered), never visited in name order.'
+EXPLANATION += " (STATE.hidden) no method creates an attribute that the constructor does not initialise and that is not a parameter with a setter: such state is in no file and survives load()."
